@@ -7,7 +7,9 @@ VERIF = os.path.dirname(os.path.dirname(os.path.abspath(__file__)))
 rows = []
 base = os.path.join(VERIF, "seeded")
 for d in sorted(os.listdir(base)):
-    for sub in ("", "second"):
+    if not os.path.isdir(os.path.join(base, d)):
+        continue
+    for sub in [""] + sorted(x for x in os.listdir(os.path.join(base, d)) if os.path.isdir(os.path.join(base, d, x))):
         p = os.path.join(base, d, sub)
         if not os.path.isfile(os.path.join(p, "patch.diff")):
             continue
